@@ -14,7 +14,7 @@ CHECKS = {
         engine="TXM",
         technique="deterministic simulation: seeded histories of begin/write/commit/abort/gc over the real TransactionManager, judged after every commit by a first-committer-wins reference model (spec clock independent of epochs and gc); delta-debugged replay",
         category="exploration",
-        text="Seeded search over manager-level histories (60k quick / 4M thorough) with the simulator owning the total order of all calls, gc at every point and long-running pinned transactions. Both directions are judged after every commit: a commit with an overlapping committed writer must be refused with WriteConflict; any other commit must be accepted, whatever gc did. Sampling, not proof.",
+        text="Seeded search over manager-level histories (300k quick / 6M thorough) with the simulator owning the total order of all calls, gc at every point and long-running pinned transactions. Both directions are judged after every commit: a commit with an overlapping committed writer must be refused with WriteConflict; any other commit must be accepted, whatever gc did. Sampling, not proof.",
         design_ref="DESIGN.md §3 C03",
         note="Trusted: the 10-line reference rule (RefTxm). Assumes writes are the ones registered through record_write. Multi-threaded commits are explored separately by the shuttle layer (C20 engine).",
     ),
@@ -32,7 +32,7 @@ CHECKS["C14"] = dict(
     engine="STORE",
     technique="deterministic simulation: seeded mutation histories over the real LpgStore with per-run operation subsets and adjacency-threshold-crossing hub runs; after every step every access path is compared with a brute-force reference graph; delta-debugged replay",
     category="exploration",
-    text="Seeded search over histories of every LpgStore mutator (20k quick / 1M thorough), with and without backward adjacency; after each step label lookups, adjacency in both directions, degrees, indexed vs scanned property lookups, range lookups, one-directional zone-map pruning, counts, enumeration and refreshed statistics are compared with a map-based reference graph.",
+    text="Seeded search over histories of every LpgStore mutator (100k quick / 2M thorough), with and without backward adjacency; after each step label lookups, adjacency in both directions, degrees, indexed vs scanned property lookups, range lookups, one-directional zone-map pruning, counts, enumeration and refreshed statistics are compared with a map-based reference graph.",
     design_ref="DESIGN.md §3 C14",
     note="Trusted: RefGraph (ordered maps, brute force). Writes are addressed to live entities; nodes with edges are deleted via delete_node_edges+delete_node as the store documents. Cross-type int/float ranges and ensure_statistics_fresh are not judged.",
 )
@@ -40,7 +40,7 @@ CHECKS["C05"] = dict(
     engine="DISK",
     technique="deterministic simulation: persistent GrafeoDB on a tapped tmpfs directory with simulated clock; seeded histories of all mutating API calls, checkpoints, rotations, syncs, clock jumps and clean close/reopen cycles under per-run durability mode, log-size limit and BufWriter capacity; reopened dump compared with a reference graph",
     category="fault_enumeration",
-    text="Seeded search (4k quick / 200k thorough) over operation sequences with 1..n clean close/reopen cycles, all four durability modes, log-size limits from 64 B (rotation after every record) to the default, BufWriter capacities from 1 B; the dump of the reopened database must equal the reference model after all operations and new identifiers must not collide with live ones.",
+    text="Seeded search (40k quick / 1M thorough) over operation sequences with 1..n clean close/reopen cycles, all four durability modes, log-size limits from 64 B (rotation after every record) to the default, BufWriter capacities from 1 B; the dump of the reopened database must equal the reference model after all operations and new identifiers must not collide with live ones.",
     design_ref="DESIGN.md §3 C05",
     note="No faults in this check (C06 injects them). AsyncWalManager and the AdaptiveFlusher thread are not run (not reachable from GrafeoDB); the flusher is modelled as generated wal.sync() calls.",
 )
